@@ -316,7 +316,7 @@ def run(chk, R, tier, seed):
               "directed default mode"):
         chk.require(c)
     prelude = [{"e": M(MONEY, "register_currency", ["s", c])} for c in CODES]
-    n = 5000 if tier == "quick" else 150000
+    n = 15000 if tier == "quick" else 150000
     done = 0
     while done < n:
         m = min(n - done, 30000)
